@@ -309,6 +309,43 @@ theorem roundtrip_slice (rec : Rec) (rb : GV → Sx) (e : Ty) (z : GV)
 
 example : convAtom ⟨[], []⟩ (.str [97]) .str = .ok (.str [97]) := rfl
 
+/-- kind-preserving scalar pairs: the value comes back from Go as the same kind of value -/
+def KindPreserving : Sx → Ty → Prop
+  | .int _, .int _ => True | .uint _, .uint _ => True | .flt _, .f64 => True
+  | .str _, .str => True | .bool _, .bool => True | .raw _, .bytes => True | _, _ => False
+
+theorem convStep_scalar (w : World) (rec : Rec) (st st' : St) (x : Sx) (T : Ty) (cur v : GV)
+    (hx : KindPreserving x T) (h : convStep w rec st x T cur = .ok (v, st')) : convAtom w x T = .ok v := by
+  cases x <;> simp only [KindPreserving] at hx <;> simp only [convStep] at h <;>
+    (split at h <;> simp_all)
+
+/-- `roundtrip` for flat records, about the model's own functions at any depth budget: take any
+record whose conversion by the real field loop (`fillFields (conv w n)`) succeeded; for every pair
+`(k, x)` of it whose value is a scalar of the field's own kind, the way back (`backStep`, any
+heap, any nested read-back) reads exactly `x` from the field `k` names. No assumption on the other
+pairs except that later ones write `Apart` paths. -/
+theorem roundtrip_flat_fields (w : World) (n : Nat) (heap : List GV) (rbk : GV → Sx) (tbl : List Entry)
+    (pre rest : List (Key × Sx)) (k : Key) (x : Sx) (st : St) (sv : GV) (out : GV × St)
+    (hfill : fillFields (conv w (n+1)) tbl st sv (pre ++ (k, x) :: rest) = .ok out)
+    (hkind : ∀ b e, keyBytes k = some b → resolve tbl b = some e → KindPreserving x e.ty)
+    (hap : ∀ b e, keyBytes k = some b → resolve tbl b = some e →
+      ∀ kv ∈ rest, ∀ b' e', keyBytes kv.1 = some b' → resolve tbl b' = some e' → Apart e'.path e.path) :
+    ∃ b e, keyBytes k = some b ∧ resolve tbl b = some e ∧
+      (getPath out.1 e.path).map (backStep w heap rbk) = some x := by
+  obtain ⟨sv1, st1, b, e, cur, v, st2, _, hk, hr, _, hc, hget⟩ :=
+    togo_fills_every_field_at (conv w (n+1)) tbl pre rest k x st sv out hfill
+  refine ⟨b, e, hk, hr, ?_⟩
+  rw [hget (hap b e hk hr)]
+  have hat : convAtom w x e.ty = .ok v := convStep_scalar w (conv w n) st1 st2 x e.ty cur v (hkind b e hk hr) hc
+  have hkp := hkind b e hk hr
+  have : backStep w heap rbk v = x := by
+    apply roundtrip_scalar w heap rbk x e.ty v _ hat
+    revert hkp
+    cases x <;> cases e.ty <;> simp [KindPreserving]
+  simp [this]
+
+example : KindPreserving (.int 5) (.int .i64) := trivial
+
 /-! ### sharing -/
 
 /-- `togo_shares`: a record that was already converted (its id is in the dedup cache with object
